@@ -3,7 +3,8 @@
 (* Trace validation for C01 and C20.  Record kinds:                        *)
 (*  "c01":  {layout, groups: [{tr, secs: [{nums, conns, block}]}],         *)
 (*           exc, obs_layout, n_e, tracts: [{tr, sec, block}],             *)
-(*           pretty_exc, pretty: [{tr, sec, block}]}                       *)
+(*           pretty_exc, pretty: [{tr, sec, block}],                       *)
+(*           plines: [{k, tr, sec, block}] pretty_desc() line by line}     *)
 (*       one rendered document parsed with default settings, and the       *)
 (*       library's pretty_desc of the result parsed again.                 *)
 (*  "same": {what, a: [int], b: [int], a_exc, b_exc, need_warning,         *)
@@ -64,6 +65,9 @@ Clause(r) == CASE r.kind = "c01" -> ClauseC01(r)
                [] r.kind = "fallback" -> ClauseFallback(r)
                [] r.kind = "secwithin" -> ClauseSecWithin(r)
 Verdict == done => (Clause(Rec) = "ok" \/ PrintT(<<"FAIL", Rec.id, Clause(Rec)>>))
+\* the model of pretty_desc (header per run of equal Twp/Rge, one section line per tract) against the real text
+Drift == done /\ Rec.kind = "c01" /\ Rec.exc = "none" /\ Rec.pretty_exc = "none" =>
+           (Rec.plines = PrettyLines(Denotation(Rec.groups)) \/ PrintT(<<"INFO", "drift", Rec.id>>))
 AllConsumed ==
   /\ PrintT(<<"INFO", "consumed", TLCGet("stats").diameter - 1, Len(Trace)>>)
   /\ TLCGet("stats").diameter - 1 = Len(Trace)
